@@ -34,6 +34,10 @@ Scenarios ==
   \* connection (guard session_keyed_by_connection); keyed by the remote address alone, the twin replaces and then
   \* removes it, and the handler of the next request finds nothing.
   \cup [ep : {"pair-setup", "pair-verify"}, st : {"fresh"}, cls : {"twin_closed"}]
+  \* well-formed, but the public key is a degenerate group element: a Curve25519 point of low order in a pair-verify start
+  \* (in every state), an SRP key that is 0 modulo the prime in a pair-setup verify request
+  \cup [ep : {"pair-verify"}, st : {"fresh", "afterV2"}, cls : {"degenerate_key"}]
+  \cup [ep : {"pair-setup"}, st : {"afterM2"}, cls : {"degenerate_key"}]
   \cup [ep : {"pairings"}, st : {"unverified", "verified"}, cls : TLVClasses \ {"short_enc", "wrong_tag", "inner_damaged"}]
   \cup [ep : {"characteristics-put", "characteristics-get", "resource", "accessories", "identify"}, st : {"unverified", "verified"}, cls : JSONClasses]
 
@@ -46,6 +50,7 @@ Init == /\ sc \in Scenarios /\ phase = "send"
 Panics ==
   \/ sc.cls = "twin_closed" /\ ~Guard("session_keyed_by_connection")
   \/ sc.cls = "short_enc" /\ sc.st \in {"afterM4", "afterV2"} /\ ~Guard("enc_length_checked")
+  \/ sc.cls = "degenerate_key" /\ ~Guard("degenerate_keys_answered")
   \/ sc.cls \in {"wrong_tag", "garbage"} /\ sc.st \in {"afterM4", "afterV2"} /\ sc.cls = "wrong_tag" /\ ~Guard("aead_failure_answered")
   \/ sc.cls = "composite_twice" /\ sc.ep = "characteristics-put" /\ sc.st = "verified" /\ ~Guard("values_comparable")
 
@@ -58,11 +63,11 @@ Wedges == sc.cls = "nonfinite_value" /\ sc.ep = "characteristics-put" /\ sc.st =
 Send == /\ phase = "send"
         /\ IF Panics
            THEN reply' = "dropped" /\ open' = FALSE /\ UNCHANGED step        \* net/http recovers the panic and drops the connection
-           ELSE /\ reply' = (IF sc.cls = "twin_closed" \/ sc.ep = "identify" \/ (sc.cls = "empty_body" /\ sc.ep \in {"accessories", "characteristics-get"}) THEN "ok" ELSE "error")
+           ELSE /\ reply' = (IF sc.cls = "twin_closed" \/ (sc.cls = "degenerate_key" /\ sc.ep = "pair-verify") \/ sc.ep = "identify" \/ (sc.cls = "empty_body" /\ sc.ep \in {"accessories", "characteristics-get"}) THEN "ok" ELSE "error")
                 /\ open' = TRUE
                 \* unknown method / step leave the machine where it was (no reset); everything else resets it
                 /\ step' = IF Pairing /\ sc.cls \in {"unknown_method", "unknown_step"} THEN step
-                           ELSE IF sc.cls = "twin_closed" THEN "Mid" ELSE "Waiting"
+                           ELSE IF sc.cls = "twin_closed" \/ (sc.cls = "degenerate_key" /\ sc.ep = "pair-verify") THEN "Mid" ELSE "Waiting"
         /\ alive' = (alive /\ ~Wedges)
         /\ phase' = "same" /\ UNCHANGED <<sc, rejected, sameOK, newOK>>
 
